@@ -229,6 +229,14 @@ def parseLine (p : PState) (km : KMap) (line : String) : PState × KMap :=
     (match a.toNat?, t.toNat?, natOrDash m with
      | some a, some t, some m => (p.emit a (.fire t m), km)
      | _, _, _ => (p.oops line, km))
+  | ["tarm", a, t, due] =>
+    (match a.toNat?, t.toNat?, due.toNat? with
+     | some a, some t, some due => (p.emit a (.timerArm t due), km)
+     | _, _, _ => (p.oops line, km))
+  | ["tend", a, t] =>
+    (match a.toNat?, t.toNat? with
+     | some a, some t => (p.emit a (.timerEnd t), km)
+     | _, _ => (p.oops line, km))
   | ["tick", a, t, m] =>
     (match a.toNat?, t.toNat?, m.toNat? with
      | some a, some t, some m => (p.emit a (.tickBegin t m), km)
